@@ -27,6 +27,17 @@ func (yf *yamlFormatter) generate(
 
 	forceBefore := false
 
+	// The additional-properties block emitted below reads the raw map.
+	if structType, ok := declType.Type.(*codegen.StructType); ok {
+		for _, f := range structType.Fields {
+			if f.Name == additionalProperties {
+				forceBefore = true
+
+				break
+			}
+		}
+	}
+
 	for _, v := range validators {
 		desc := v.desc()
 		if desc.beforeJSONUnmarshal {
